@@ -220,3 +220,131 @@ func asyncRecoveryFamily(r *vx.Rand, rounds int) {
 		}
 	}
 }
+
+// slowOwnerScenario: "resolver versus a slow owner around the ttl instant".  An optimistic transaction without heart-beat is
+// held between its prewrites and the commit of its primary; the virtual clock stands shortly before (or after: control) the
+// instant its lock ttl runs out; a foreign client meets one of its locks, and the clock steps over the ttl instant BETWEEN the
+// execution of that client's CheckTxnStatus request and the delivery of the answer (the request carried a current ts from
+// before the instant: the store kept the primary and answered its ttl; the resolver's oracle has moved on when it looks at the
+// answer).  Then the owner goes on: its primary commit lands; it dies right after it, or completes.  A resolver may roll a
+// lock back only when the store SAID the transaction is rolled back (monitor rule 4); the records of the transaction stay
+// all-or-nothing (C02).
+func slowOwnerScenario(r *vx.Rand) {
+	s := genShape(r)
+	for len(s.keys) < 2 {
+		s = genShape(r)
+	}
+	s.pess = false
+	if r.Chance(80) {
+		s.mode = "2pc"
+	}
+	for i := range s.kinds {
+		if s.kinds[i] == "insdel" || s.kinds[i] == "lock" {
+			s.kinds[i] = "put"
+		}
+	}
+	sr := startShape(s, r)
+	w := sr.w
+	defer w.Close()
+	if !sr.ok || !sr.prepared {
+		return
+	}
+	a := sr.a
+	g := w.Gate()
+	b := w.NewClient("b")
+	startPhys := int64(a.StartTS() >> 18)
+	before := r.Chance(75) // the foreign client arrives shortly before the ttl instant (else: well after it)
+	stepOver := r.Chance(80)
+	key := s.keys[0] // the optimistic primary is the smallest key
+	if r.Chance(85) {
+		key = pick(r, s.keys[1:])
+	}
+	how := pick(r, []string{"read", "read", "write", "lock"})
+	stepMs := int64(150 + r.Intn(400))
+	if stepOver {
+		g.AddFault(&hub.Fault{Kind: hub.Topo, Client: b, Label: "status-delivery", Repeat: r.Chance(30),
+			Match: func(kind, cmd string) bool { return kind == "status" },
+			Deliver: func() {
+				w.AdvanceClock(stepMs)
+				b.CurrentTS() // any timestamp fetch of the resolver's store refreshes its oracle
+			}})
+		rec.Count("c02:slow-owner:clock-step-at-status-delivery")
+	}
+	done := make(chan struct{})
+	bRPCs := 3 + r.Intn(3)
+	target := startPhys + 2990 - int64(r.Intn(40))
+	if !before {
+		target = startPhys + 3500 + int64(r.Intn(3000))
+	}
+	hf := g.AddFault(&hub.Fault{Kind: hub.Hold, Client: a, N: 0, Label: "slow-owner",
+		Match: func(kind, cmd string) bool { return kind == "commit" },
+		Start: func() {
+			defer close(done)
+			defer func() { recover() }()
+			if d := target - w.Now(); d > 0 {
+				w.AdvanceClock(d)
+			}
+			switch how {
+			case "read":
+				b.Begin(false, "2pc")
+				b.Get(key)
+				b.Rollback()
+			case "write":
+				b.Begin(false, "2pc")
+				b.Set(key, []byte{0x66})
+				b.Commit()
+			default:
+				b.Begin(true, "2pc")
+				b.Lock([][]byte{key}, "n")
+				b.Rollback()
+			}
+		},
+		Until: func() bool {
+			select {
+			case <-done:
+				return true
+			default:
+			}
+			return b.RPCs() >= bRPCs
+		},
+		MaxHold: 300 * time.Millisecond,
+	})
+	if r.Chance(60) {
+		// the owner dies when its first commit request (the primary's) has been executed
+		g.AddFault(&hub.Fault{Kind: hub.CrashAfter, Client: a, N: 0, Match: func(kind, cmd string) bool { return kind == "commit" }})
+	}
+	rec.Count("c02:slow-owner:" + how)
+	sd := &side{f: hf, done: done}
+	// once the owner goes on, time goes on for the foreign client too (its oracle is refreshed by timestamp fetches): a
+	// client waiting for a lock that is 20 ms from its ttl would otherwise retry thousands of times on a frozen clock
+	go func() {
+		defer func() { recover() }()
+		for {
+			select {
+			case <-done:
+				return
+			default:
+			}
+			if hf.Fired() {
+				w.AdvanceClock(25)
+				b.CurrentTS()
+			}
+			hub.Pause(500 * time.Microsecond)
+		}
+	}()
+	if _, ret := sr.final(); !ret && !a.Crashed() {
+		return
+	}
+	if !sd.wait(w) {
+		return
+	}
+	if !a.Crashed() {
+		w.WaitDrained(scenarioTimeout)
+	}
+	g.ClearFaults()
+	who := b
+	if r.Bool() {
+		who = nil
+	}
+	recoverWith(w, who, s.keys, r, r.Intn(8), a)
+}
